@@ -80,10 +80,12 @@ def acceptor(sc, r):
 def run(ctx):
     rng = ctx.rng
     scs = []
-    froms = [None, b"a@x.org", b"\xc3\xa9@example.com", b"\"a b\"@example.com"]
+    # (a local part that is quoted without need is sent as it is: the exact reverse / forward path, not an equivalent one)
+    froms = [None, b"a@x.org", b"\xc3\xa9@example.com", b"\"a b\"@example.com", b"\"john.doe\"@example.org"]
     tolists = [[b"b@y.org"], [b"b@y.org", b"\"<>\"@example.com", b"c@z.org"], [b"user@\xc3\xa9x.example"], [b"-f@example.com", b"x@[127.0.0.1]"],
                [b"v6@[2001:DB8:0:0:0:0:0:1]", b"w@[IPv6:2001:db8::1]", b"l@[::1]"],
-               [b"b@y.org", b"b@y.org"], [b"r%d@many.example" % i for i in range(5)]]
+               [b"b@y.org", b"b@y.org"], [b"r%d@many.example" % i for i in range(5)],
+               [b"\"plain\"@example.org", b"\"a.b\"@example.org", b"\"a\\b\"@example.org", b"Upper.Case@Example.ORG"]]
     msgs = [b"hello\r\n", b"caf\xc3\xa9\r\n", b"\xff\x00", b""]
     ext_sets = [[], [b"8BITMIME"], [b"SMTPUTF8"], [b"8BITMIME", b"SMTPUTF8"], [b"8bitmime", b"smtputf8", b"SIZE 10"], [b"X 8BITMIME SMTPUTF8"], [b"PIPELINING", b"8BITMIME", b"SMTPUTF8", b"CHUNKING", b"DSN"],
                 # keywords that look like the two extensions but are others (UTF8SMTP is RFC 5336's, obsolete)
